@@ -301,6 +301,9 @@ def _run(ctx, rng, k, cancel_prob, max_polls, local_prob, entry, timeouts, force
         env["study_name"] = c._study.name
         S.WORLD.reset(subs=[0 if r2.random() < 0.08 else 1 for _ in range(60)],
                       sched={nm: (not all_local) and r2.random() < 0.85 for nm in env["names"]})
+        if opts.get("_world") == "benign":
+            # every step is scheduled, every submission is accepted, every job runs for one poll
+            S.WORLD.reset(subs=[], sched={nm: True for nm in env["names"]})
         S.WORLD.poll_code = "OK"
         S.WORLD.poll_reports = []
         # with --usetmp the scripts of all instances share one directory: the files are really written,
@@ -322,6 +325,7 @@ def _run(ctx, rng, k, cancel_prob, max_polls, local_prob, entry, timeouts, force
             st["nontrivial"] = True
     mon = {"C18": [], "C07": [], "C12": [], "C05": [], "C01": [], "C03": [], "C06": [], "C02": [], "C19": []}
     st = {"polls": 0, "cancel_at": None, "nontrivial": False, "cancel_calls": 0, "seen_events": 0}
+    seen_polls = {}
     # C01 at the level of the staged study: the parents of an instance are read
     # from the execution graph's adjacency table (what `maestro status` and the
     # failure propagation use), not from the gating sets the launcher consults
@@ -418,7 +422,10 @@ def _run(ctx, rng, k, cancel_prob, max_polls, local_prob, entry, timeouts, force
             st["nontrivial"] = True
         reps = []
         for nm in inflight:
-            if timeouts and rng.random() < timeouts and rounds.get(nm, 0) < 5:
+            if opts.get("_world") == "benign":
+                seen_polls[nm] = seen_polls.get(nm, 0) + 1
+                v = "RUNNING" if seen_polls[nm] < 2 else "FINISHED"
+            elif timeouts and rng.random() < timeouts and rounds.get(nm, 0) < 5:
                 v = "TIMEDOUT"          # a scheduler whose jobs keep hitting their time limit
             elif fair:
                 v = E._weighted(rng, [("FINISHED", 14), ("FAILED", 2), ("CANCELLED", 1), ("RUNNING", 2)])
